@@ -221,6 +221,7 @@ def cases(tier, seed=0):
     out.append(GramKinetic(ls=[2, 1], types="sc", Ks=[1, 1], Ms=[1, 1]))
     out.append(GramPointCharge(ls=[0, 1], types="cc", Ks=[2, 1], Ms=[1, 2], nq=1))
     out.append(GramPointCharge(ls=[2, 1], types="sc", Ks=[1, 1], Ms=[1, 1], nq=1))
+    out.append(GramPointCharge(ls=[0, 0], types="cc", Ks=[2, 2], Ms=[1, 1], nq=1, twin={"1": 0}))
     out.append(GramEri(ls=[0, 0], Ks=[2, 1], Ms=[1, 2]))
     out.append(GramEriSph(module="eri", ls=[0, 1], types="cs", Ks=[1, 1], Ms=[1, 2]))
     out.append(GramEriSph(module="eri", ls=[1, 1], types="ss", Ks=[1, 1], Ms=[1, 2]))
